@@ -292,52 +292,107 @@ theorem binary_manifest {es es' : Entities} {req : Request} {op : BinaryOp} {ty1
                       obtain ⟨c4, c5⟩ := coverRoots_addWrapped es es' req false rb.paths.toAncestorTrie ra.paths ra.global h
                       exact ⟨c4, fun _ => c5⟩) t1 t2 f1 f2 hf1 hf2
 
+theorem asBool_ok {v : Value} {b : Bool} (h : v.asBool = .ok b) : v = .prim (.bool b) := by
+  cases v with
+  | prim p => cases p <;> simp [Value.asBool] at h; subst h; rfl
+  | record kvs => simp [Value.asBool] at h
+  | set s => simp [Value.asBool] at h
+  | ext x => simp [Value.asBool] at h
+
+/-- `Sim req es e te`: over the full store `es`, `te` is a typed AST of `e` in the core fragment.  `te` has the shape of
+`e`, EXCEPT where the typechecker short-circuits (typecheck.rs): `a && b` with `a` typed `False` and `a || b` with `a`
+typed `True` become the typed `a`; `if c then t else e` with `c` typed `True` (`False`) becomes `if c then t else t`
+(`if c then e else e`).  The semantic content of these typings is carried as premises (the decisive operand never
+evaluates to the other boolean over the FULL store).  Sub-derivations are only demanded where evaluation over the full
+store goes (`&&`, `||`, `if` are lazy), and operands of binary operators are not records (`NonRec`, as in `SafeOps`). -/
+inductive Sim (req : Request) (es : Entities) : Expr → TExpr → Prop
+  | lit (p : Prim) : Sim req es (.lit p) (.lit p)
+  | var (x : Var) : Sim req es (.var x) (.var x)
+  | ite {c t e : Expr} {tc tt te : TExpr} : Sim req es c tc →
+      (evaluate req es [] c = .ok (.prim (.bool true)) → Sim req es t tt) →
+      (evaluate req es [] c = .ok (.prim (.bool false)) → Sim req es e te) → Sim req es (.ite c t e) (.ite tc tt te)
+  | iteTrue {c t e : Expr} {tc tt : TExpr} : Sim req es c tc →
+      (∀ v, evaluate req es [] c = .ok v → v = .prim (.bool true)) →
+      (evaluate req es [] c = .ok (.prim (.bool true)) → Sim req es t tt) → Sim req es (.ite c t e) (.ite tc tt tt)
+  | iteFalse {c t e : Expr} {tc te : TExpr} : Sim req es c tc →
+      (∀ v, evaluate req es [] c = .ok v → v = .prim (.bool false)) →
+      (evaluate req es [] c = .ok (.prim (.bool false)) → Sim req es e te) → Sim req es (.ite c t e) (.ite tc te te)
+  | and {a b : Expr} {ta tb : TExpr} : Sim req es a ta →
+      (evaluate req es [] a = .ok (.prim (.bool true)) → Sim req es b tb) → Sim req es (.and a b) (.and ta tb)
+  | andFalse {a b : Expr} {ta : TExpr} : Sim req es a ta →
+      (∀ v, evaluate req es [] a = .ok v → v = .prim (.bool false)) → Sim req es (.and a b) ta
+  | or {a b : Expr} {ta tb : TExpr} : Sim req es a ta →
+      (evaluate req es [] a = .ok (.prim (.bool false)) → Sim req es b tb) → Sim req es (.or a b) (.or ta tb)
+  | orTrue {a b : Expr} {ta : TExpr} : Sim req es a ta →
+      (∀ v, evaluate req es [] a = .ok v → v = .prim (.bool true)) → Sim req es (.or a b) ta
+  | unary (op : UnaryOp) (ty : Option CedarType) {a : Expr} {ta : TExpr} : Sim req es a ta →
+      Sim req es (.unaryApp op a) (.unaryApp op ty ta)
+  | binary (op : BinaryOp) (ty1 ty2 : Option CedarType) {a b : Expr} {ta tb : TExpr} : FragOp op →
+      Sim req es a ta → Sim req es b tb →
+      NonRec (evaluate req es [] a) → NonRec (evaluate req es [] b) →
+      Sim req es (.binaryApp op a b) (.binaryApp op ty1 ty2 ta tb)
+  | getAttr (attr : String) {e : Expr} {te : TExpr} : Sim req es e te → Sim req es (.getAttr e attr) (.getAttr te attr)
+  | hasAttr (attr : String) {e : Expr} {te : TExpr} : Sim req es e te → Sim req es (.hasAttr e attr) (.hasAttr te attr)
+  | like (p : Pattern) {e : Expr} {te : TExpr} : Sim req es e te → Sim req es (.like e p) (.like te p)
+  | is (ty : EntityType) {e : Expr} {te : TExpr} : Sim req es e te → Sim req es (.is e ty) (.is te ty)
+  /-- extension function calls (all extension functions have one or two arguments): the arguments are not records and the
+  result is a scalar (both follow from the typing: argument types are `String` / extension types, result types are
+  extension types, `Bool`, `Long`) -/
+  | call1 (fn : String) {a : Expr} {ta : TExpr} : Sim req es a ta → NonRec (evaluate req es [] a) →
+      (∀ w, evaluate req es [] (.call fn [a]) = .ok w → Scalar w) → Sim req es (.call fn [a]) (.call fn [ta])
+  | call2 (fn : String) {a b : Expr} {ta tb : TExpr} : Sim req es a ta → Sim req es b tb →
+      NonRec (evaluate req es [] a) → NonRec (evaluate req es [] b) →
+      (∀ w, evaluate req es [] (.call fn [a, b]) = .ok w → Scalar w) → Sim req es (.call fn [a, b]) (.call fn [ta, tb])
+
 section main
 variable {es es' : Entities} {req : Request}
 
-/-- soundness of the analysis on the core fragment -/
-theorem eval_sliced (hsub : SubStore es es') (hctx : CtxWF req) :
-    ∀ (e : TExpr) (r : Res), InFrag e → SafeOps req es e → manifestOfExpr e = .ok r →
-      CoverRoots es es' req r.global →
-      Rel es es' req r.paths (evaluate req es [] e.erase) (evaluate req es' [] e.erase)
-  | .lit p, r, _, _, hm, _ => by
+/-- SOUNDNESS OF THE ANALYSIS on the core fragment, for an expression `e` and a typed AST `te` of it (`Sim`): a sub-store
+covering the trie of `te` evaluates `e` — the ORIGINAL expression, including the parts the typechecker dropped — as the
+full store does. -/
+theorem eval_sim (hsub : SubStore es es') (hctx : CtxWF req) {e : Expr} {te : TExpr} (hsim : Sim req es e te) :
+    ∀ (r : Res), manifestOfExpr te = .ok r → CoverRoots es es' req r.global →
+      Rel es es' req r.paths (evaluate req es [] e) (evaluate req es' [] e) := by
+  induction hsim with
+  | lit p =>
+    intro r hm _
     cases p with
     | entityUID u =>
       simp only [manifestOfExpr, Except.ok.injEq] at hm
       subst hm
-      simp only [TExpr.erase, evaluate, Rel, Res.fromRoot]
+      simp only [evaluate, Rel, Res.fromRoot]
       exact ⟨_, rfl, by simp [Trim], by simp [PCover, walk, rootVal]⟩
     | bool b =>
       simp only [manifestOfExpr, Except.ok.injEq] at hm
       subst hm
-      simp only [TExpr.erase, evaluate, Rel, Res.default]
+      simp only [evaluate, Rel, Res.default]
       exact ⟨_, rfl, by simp [Trim], by simp [PCover, Scalar]⟩
     | int n =>
       simp only [manifestOfExpr, Except.ok.injEq] at hm
       subst hm
-      simp only [TExpr.erase, evaluate, Rel, Res.default]
+      simp only [evaluate, Rel, Res.default]
       exact ⟨_, rfl, by simp [Trim], by simp [PCover, Scalar]⟩
     | string s =>
       simp only [manifestOfExpr, Except.ok.injEq] at hm
       subst hm
-      simp only [TExpr.erase, evaluate, Rel, Res.default]
+      simp only [evaluate, Rel, Res.default]
       exact ⟨_, rfl, by simp [Trim], by simp [PCover, Scalar]⟩
-  | .var x, r, _, _, hm, _ => by
+  | var x =>
+    intro r hm _
     simp only [manifestOfExpr, Except.ok.injEq] at hm
     subst hm
-    simp only [TExpr.erase, rootVal_var, Rel, Res.fromRoot]
+    simp only [rootVal_var, Rel, Res.fromRoot]
     exact ⟨_, rfl, trim_rootVal hctx (.var x), by simp [PCover, walk]⟩
-  | .ite c t e, r, hf, hs, hm, hc => by
-    simp only [InFrag] at hf
-    simp only [SafeOps] at hs
+  | @ite c t e tc tt te _ _ _ ihc iht ihe =>
+    intro r hm hc
     simp only [manifestOfExpr] at hm
-    cases h1 : manifestOfExpr c with
+    cases h1 : manifestOfExpr tc with
     | error x => simp [h1] at hm
     | ok rc =>
-      cases h2 : manifestOfExpr t with
+      cases h2 : manifestOfExpr tt with
       | error x => simp [h1, h2] at hm
       | ok rt =>
-        cases h3 : manifestOfExpr e with
+        cases h3 : manifestOfExpr te with
         | error x => simp [h1, h2, h3] at hm
         | ok re =>
           simp only [h1, h2, h3, Except.ok.injEq] at hm
@@ -345,11 +400,9 @@ theorem eval_sliced (hsub : SubStore es es') (hctx : CtxWF req) :
           simp only [Res.union, Res.emptyPaths] at hc ⊢
           obtain ⟨hc12, hc3⟩ := coverRoots_union es es' req _ _ hc
           obtain ⟨hc1, hc2⟩ := coverRoots_union es es' req _ _ hc12
-          have ihc := eval_sliced hsub hctx c rc hf.1 hs.1 h1 hc1
-          have iht := eval_sliced hsub hctx t rt hf.2.1 hs.2.1 h2 hc2
-          have ihe := eval_sliced hsub hctx e re hf.2.2 hs.2.2 h3 hc3
-          simp only [TExpr.erase, evaluate]
-          cases hv : evaluate req es [] c.erase with
+          have ihc := ihc rc h1 hc1
+          simp only [evaluate]
+          cases hv : evaluate req es [] c with
           | error x =>
             simp only [hv, Rel] at ihc
             simp only [ihc]; rfl
@@ -360,27 +413,85 @@ theorem eval_sliced (hsub : SubStore es es') (hctx : CtxWF req) :
             cases hb : v.asBool with
             | error x => rfl
             | ok b =>
+              have hvb := asBool_ok hb
+              subst hvb
               cases b with
-              | true => exact iht.mono (fun _ _ h => Or.inl (Or.inr h))
-              | false => exact ihe.mono (fun _ _ h => Or.inr h)
-  | .and a b, r, hf, hs, hm, hc => by
-    simp only [InFrag] at hf
-    simp only [SafeOps] at hs
+              | true => exact (iht hv rt h2 hc2).mono (fun _ _ h => Or.inl (Or.inr h))
+              | false => exact (ihe hv re h3 hc3).mono (fun _ _ h => Or.inr h)
+  | @iteTrue c t e tc tt _ htrue _ ihc iht =>
+    intro r hm hc
+    simp only [manifestOfExpr] at hm
+    cases h1 : manifestOfExpr tc with
+    | error x => simp [h1] at hm
+    | ok rc =>
+      cases h2 : manifestOfExpr tt with
+      | error x => simp [h1, h2] at hm
+      | ok rt =>
+        simp only [h1, h2, Except.ok.injEq] at hm
+        subst hm
+        simp only [Res.union, Res.emptyPaths] at hc ⊢
+        obtain ⟨hc12, _⟩ := coverRoots_union es es' req _ _ hc
+        obtain ⟨hc1, hc2⟩ := coverRoots_union es es' req _ _ hc12
+        have ihc := ihc rc h1 hc1
+        simp only [evaluate]
+        cases hv : evaluate req es [] c with
+        | error x =>
+          simp only [hv, Rel] at ihc
+          simp only [ihc]; rfl
+        | ok v =>
+          have hvt := htrue v hv
+          subst hvt
+          simp only [hv, Rel] at ihc
+          obtain ⟨v', e1, e2, _⟩ := ihc
+          have := trim_prim e2
+          subst this
+          simp only [e1, Value.asBool]
+          refine Rel.mono (Q := .union (.union .empty rt.paths) rt.paths) (iht hv rt h2 hc2) (fun _ _ h => Or.inr h)
+  | @iteFalse c t e tc te _ hfalse _ ihc ihe =>
+    intro r hm hc
+    simp only [manifestOfExpr] at hm
+    cases h1 : manifestOfExpr tc with
+    | error x => simp [h1] at hm
+    | ok rc =>
+      cases h2 : manifestOfExpr te with
+      | error x => simp [h1, h2] at hm
+      | ok re =>
+        simp only [h1, h2, Except.ok.injEq] at hm
+        subst hm
+        simp only [Res.union, Res.emptyPaths] at hc ⊢
+        obtain ⟨hc12, _⟩ := coverRoots_union es es' req _ _ hc
+        obtain ⟨hc1, hc2⟩ := coverRoots_union es es' req _ _ hc12
+        have ihc := ihc rc h1 hc1
+        simp only [evaluate]
+        cases hv : evaluate req es [] c with
+        | error x =>
+          simp only [hv, Rel] at ihc
+          simp only [ihc]; rfl
+        | ok v =>
+          have hvt := hfalse v hv
+          subst hvt
+          simp only [hv, Rel] at ihc
+          obtain ⟨v', e1, e2, _⟩ := ihc
+          have := trim_prim e2
+          subst this
+          simp only [e1, Value.asBool]
+          refine Rel.mono (Q := .union (.union .empty re.paths) re.paths) (ihe hv re h2 hc2) (fun _ _ h => Or.inr h)
+  | @and a b ta tb _ _ iha ihb =>
+    intro r hm hc
     simp only [manifestOfExpr, primPair] at hm
-    cases h1 : manifestOfExpr a with
+    cases h1 : manifestOfExpr ta with
     | error x => simp [h1] at hm
     | ok ra =>
-      cases h2 : manifestOfExpr b with
+      cases h2 : manifestOfExpr tb with
       | error x => simp [h1, h2] at hm
       | ok rb =>
         simp only [h1, h2, Except.ok.injEq] at hm
         subst hm
         simp only [Res.union, Res.emptyPaths] at hc ⊢
         obtain ⟨hc1, hc2⟩ := coverRoots_union es es' req _ _ hc
-        have iha := eval_sliced hsub hctx a ra hf.1 hs.1 h1 hc1
-        have ihb := eval_sliced hsub hctx b rb hf.2 hs.2 h2 hc2
-        simp only [TExpr.erase, evaluate]
-        cases hv : evaluate req es [] a.erase with
+        have iha := iha ra h1 hc1
+        simp only [evaluate]
+        cases hv : evaluate req es [] a with
         | error x =>
           simp only [hv, Rel] at iha
           simp only [iha]; rfl
@@ -391,11 +502,14 @@ theorem eval_sliced (hsub : SubStore es es') (hctx : CtxWF req) :
           cases hb : v.asBool with
           | error x => rfl
           | ok bv =>
+            have hvb := asBool_ok hb
+            subst hvb
             cases bv with
             | false => exact ⟨_, rfl, by simp [Trim], Or.inl (scalar_bool false)⟩
             | true =>
+              have ihb := ihb hv rb h2 hc2
               simp only
-              cases hw : evaluate req es [] b.erase with
+              cases hw : evaluate req es [] b with
               | error x =>
                 simp only [hw, Rel] at ihb
                 simp only [ihb]; rfl
@@ -406,24 +520,39 @@ theorem eval_sliced (hsub : SubStore es es') (hctx : CtxWF req) :
                 cases hb2 : w.asBool with
                 | error x => rfl
                 | ok b2 => exact ⟨_, rfl, by simp [Trim], Or.inl (scalar_bool b2)⟩
-  | .or a b, r, hf, hs, hm, hc => by
-    simp only [InFrag] at hf
-    simp only [SafeOps] at hs
+  | @andFalse a b ta _ hfalse iha =>
+    intro r hm hc
+    have iha := iha r hm hc
+    simp only [evaluate]
+    cases hv : evaluate req es [] a with
+    | error x =>
+      simp only [hv, Rel] at iha
+      simp only [iha]; rfl
+    | ok v =>
+      have hvt := hfalse v hv
+      subst hvt
+      simp only [hv, Rel] at iha
+      obtain ⟨v', e1, e2, e3⟩ := iha
+      have := trim_prim e2
+      subst this
+      simp only [e1, Value.asBool]
+      exact ⟨_, rfl, by simp [Trim], e3⟩
+  | @or a b ta tb _ _ iha ihb =>
+    intro r hm hc
     simp only [manifestOfExpr, primPair] at hm
-    cases h1 : manifestOfExpr a with
+    cases h1 : manifestOfExpr ta with
     | error x => simp [h1] at hm
     | ok ra =>
-      cases h2 : manifestOfExpr b with
+      cases h2 : manifestOfExpr tb with
       | error x => simp [h1, h2] at hm
       | ok rb =>
         simp only [h1, h2, Except.ok.injEq] at hm
         subst hm
         simp only [Res.union, Res.emptyPaths] at hc ⊢
         obtain ⟨hc1, hc2⟩ := coverRoots_union es es' req _ _ hc
-        have iha := eval_sliced hsub hctx a ra hf.1 hs.1 h1 hc1
-        have ihb := eval_sliced hsub hctx b rb hf.2 hs.2 h2 hc2
-        simp only [TExpr.erase, evaluate]
-        cases hv : evaluate req es [] a.erase with
+        have iha := iha ra h1 hc1
+        simp only [evaluate]
+        cases hv : evaluate req es [] a with
         | error x =>
           simp only [hv, Rel] at iha
           simp only [iha]; rfl
@@ -434,11 +563,14 @@ theorem eval_sliced (hsub : SubStore es es') (hctx : CtxWF req) :
           cases hb : v.asBool with
           | error x => rfl
           | ok bv =>
+            have hvb := asBool_ok hb
+            subst hvb
             cases bv with
             | true => exact ⟨_, rfl, by simp [Trim], Or.inl (scalar_bool true)⟩
             | false =>
+              have ihb := ihb hv rb h2 hc2
               simp only
-              cases hw : evaluate req es [] b.erase with
+              cases hw : evaluate req es [] b with
               | error x =>
                 simp only [hw, Rel] at ihb
                 simp only [ihb]; rfl
@@ -449,12 +581,28 @@ theorem eval_sliced (hsub : SubStore es es') (hctx : CtxWF req) :
                 cases hb2 : w.asBool with
                 | error x => rfl
                 | ok b2 => exact ⟨_, rfl, by simp [Trim], Or.inl (scalar_bool b2)⟩
-  | .unaryApp op ty a, r, hf, hs, hm, hc => by
-    simp only [InFrag] at hf
-    simp only [SafeOps] at hs
-    have hm' : ∃ ra, manifestOfExpr a = .ok ra ∧ r.paths = .empty ∧
+  | @orTrue a b ta _ htrue iha =>
+    intro r hm hc
+    have iha := iha r hm hc
+    simp only [evaluate]
+    cases hv : evaluate req es [] a with
+    | error x =>
+      simp only [hv, Rel] at iha
+      simp only [iha]; rfl
+    | ok v =>
+      have hvt := htrue v hv
+      subst hvt
+      simp only [hv, Rel] at iha
+      obtain ⟨v', e1, e2, e3⟩ := iha
+      have := trim_prim e2
+      subst this
+      simp only [e1, Value.asBool]
+      exact ⟨_, rfl, by simp [Trim], e3⟩
+  | @unary op ty a ta _ iha =>
+    intro r hm hc
+    have hm' : ∃ ra, manifestOfExpr ta = .ok ra ∧ r.paths = .empty ∧
         (CoverRoots es es' req r.global → CoverRoots es es' req ra.global) := by
-      cases h1 : manifestOfExpr a with
+      cases h1 : manifestOfExpr ta with
       | error x =>
         cases op with
         | not => simp [manifestOfExpr, h1] at hm
@@ -480,9 +628,9 @@ theorem eval_sliced (hsub : SubStore es es') (hctx : CtxWF req) :
               subst hm
               exact ⟨rfl, fun h => (coverRoots_union es es' req _ _ h).1⟩
     obtain ⟨ra, h1, hpaths, hcov⟩ := hm'
-    have iha := eval_sliced hsub hctx a ra hf hs h1 (hcov hc)
-    simp only [TExpr.erase, evaluate, hpaths]
-    cases hv : evaluate req es [] a.erase with
+    have iha := iha ra h1 (hcov hc)
+    simp only [evaluate, hpaths]
+    cases hv : evaluate req es [] a with
     | error x =>
       simp only [hv, Rel] at iha
       simp only [iha]; rfl
@@ -491,17 +639,14 @@ theorem eval_sliced (hsub : SubStore es es') (hctx : CtxWF req) :
       obtain ⟨v', e1, e2, _⟩ := iha
       simp only [e1, applyUnary_trim' op e2]
       exact rel_of_eq_scalar (fun w h => applyUnary_scalar op v w h) (fun _ _ h => h)
-  | .binaryApp op ty1 ty2 a b, r, hf, hs, hm, hc => by
-    simp only [InFrag] at hf
-    simp only [SafeOps] at hs
-    obtain ⟨hop, hfa, hfb⟩ := hf
-    obtain ⟨hna, hnb, hsa, hsb⟩ := hs
+  | @binary op ty1 ty2 a b ta tb hop _ _ hna hnb iha ihb =>
+    intro r hm hc
     obtain ⟨ra, rb, h1, h2, hcov, hscal⟩ := binary_manifest (es := es) (es' := es') (req := req) hop hm
     obtain ⟨hc1, hc2, hmemcov⟩ := hcov hc
-    have iha := eval_sliced hsub hctx a ra hfa hsa h1 hc1
-    have ihb := eval_sliced hsub hctx b rb hfb hsb h2 hc2
-    simp only [TExpr.erase, evaluate]
-    cases hv : evaluate req es [] a.erase with
+    have iha := iha ra h1 hc1
+    have ihb := ihb rb h2 hc2
+    simp only [evaluate]
+    cases hv : evaluate req es [] a with
     | error x =>
       simp only [hv, Rel] at iha
       simp only [iha]; rfl
@@ -511,7 +656,7 @@ theorem eval_sliced (hsub : SubStore es es') (hctx : CtxWF req) :
       have ev : v' = v := trim_nonrecord e2 (fun kvs h => hna kvs (by rw [hv, h]))
       subst ev
       simp only [e1]
-      cases hw : evaluate req es [] b.erase with
+      cases hw : evaluate req es [] b with
       | error x =>
         simp only [hw, Rel] at ihb
         simp only [ihb]; rfl
@@ -533,11 +678,10 @@ theorem eval_sliced (hsub : SubStore es es') (hctx : CtxWF req) :
         · obtain ⟨g1, g2⟩ := applyBinary_nonmem es es' op hop hmem v' w'
           rw [g1]
           exact rel_of_eq_scalar g2 hscal
-  | .getAttr e a, r, hf, hs, hm, hc => by
-    simp only [InFrag] at hf
-    simp only [SafeOps] at hs
+  | @getAttr a e te _ ihe =>
+    intro r hm hc
     simp only [manifestOfExpr] at hm
-    cases h1 : manifestOfExpr e with
+    cases h1 : manifestOfExpr te with
     | error x => simp [h1] at hm
     | ok re =>
       simp only [h1, Res.getOrHasAttr] at hm
@@ -548,9 +692,9 @@ theorem eval_sliced (hsub : SubStore es es') (hctx : CtxWF req) :
         subst hm
         simp only at hc ⊢
         obtain ⟨hc1, hcov⟩ := coverRoots_addWrapped es es' req false [] p' re.global hc
-        have ihe := eval_sliced hsub hctx e re hf hs h1 hc1
-        simp only [TExpr.erase, evaluate_getAttr]
-        cases hv : evaluate req es [] e.erase with
+        have ihe := ihe re h1 hc1
+        simp only [evaluate_getAttr]
+        cases hv : evaluate req es [] e with
         | error x =>
           simp only [hv, Rel] at ihe
           simp only [ihe]; rfl
@@ -559,11 +703,10 @@ theorem eval_sliced (hsub : SubStore es es') (hctx : CtxWF req) :
           obtain ⟨v', e1, e2, e3⟩ := ihe
           simp only [e1]
           exact (get_has_rel hsub hctx a re.paths p' v v' hp e3 e2 hcov).2
-  | .hasAttr e a, r, hf, hs, hm, hc => by
-    simp only [InFrag] at hf
-    simp only [SafeOps] at hs
+  | @hasAttr a e te _ ihe =>
+    intro r hm hc
     simp only [manifestOfExpr] at hm
-    cases h1 : manifestOfExpr e with
+    cases h1 : manifestOfExpr te with
     | error x => simp [h1] at hm
     | ok re =>
       simp only [h1, Res.getOrHasAttr] at hm
@@ -574,9 +717,9 @@ theorem eval_sliced (hsub : SubStore es es') (hctx : CtxWF req) :
         subst hm
         simp only [Res.emptyPaths] at hc ⊢
         obtain ⟨hc1, hcov⟩ := coverRoots_addWrapped es es' req false [] p' re.global hc
-        have ihe := eval_sliced hsub hctx e re hf hs h1 hc1
-        simp only [TExpr.erase, evaluate_hasAttr]
-        cases hv : evaluate req es [] e.erase with
+        have ihe := ihe re h1 hc1
+        simp only [evaluate_hasAttr]
+        cases hv : evaluate req es [] e with
         | error x =>
           simp only [hv, Rel] at ihe
           simp only [ihe]; rfl
@@ -601,19 +744,18 @@ theorem eval_sliced (hsub : SubStore es es') (hctx : CtxWF req) :
             | string s => simp [hasV] at hw
           | set s => simp [hasV] at hw
           | ext x => simp [hasV] at hw
-  | .like e p, r, hf, hs, hm, hc => by
-    simp only [InFrag] at hf
-    simp only [SafeOps] at hs
+  | @like p e te _ ihe =>
+    intro r hm hc
     simp only [manifestOfExpr] at hm
-    cases h1 : manifestOfExpr e with
+    cases h1 : manifestOfExpr te with
     | error x => simp [h1] at hm
     | ok re =>
       simp only [h1, Except.ok.injEq] at hm
       subst hm
       simp only [Res.emptyPaths] at hc ⊢
-      have ihe := eval_sliced hsub hctx e re hf hs h1 hc
-      simp only [TExpr.erase, evaluate]
-      cases hv : evaluate req es [] e.erase with
+      have ihe := ihe re h1 hc
+      simp only [evaluate]
+      cases hv : evaluate req es [] e with
       | error x =>
         simp only [hv, Rel] at ihe
         simp only [ihe]; rfl
@@ -624,19 +766,18 @@ theorem eval_sliced (hsub : SubStore es es') (hctx : CtxWF req) :
         cases hsv : v.asString with
         | error x => rfl
         | ok s => exact ⟨_, rfl, by simp [Trim], scalar_bool _⟩
-  | .is e ty, r, hf, hs, hm, hc => by
-    simp only [InFrag] at hf
-    simp only [SafeOps] at hs
+  | @is ty e te _ ihe =>
+    intro r hm hc
     simp only [manifestOfExpr] at hm
-    cases h1 : manifestOfExpr e with
+    cases h1 : manifestOfExpr te with
     | error x => simp [h1] at hm
     | ok re =>
       simp only [h1, Except.ok.injEq] at hm
       subst hm
       simp only [Res.emptyPaths] at hc ⊢
-      have ihe := eval_sliced hsub hctx e re hf hs h1 hc
-      simp only [TExpr.erase, evaluate]
-      cases hv : evaluate req es [] e.erase with
+      have ihe := ihe re h1 hc
+      simp only [evaluate]
+      cases hv : evaluate req es [] e with
       | error x =>
         simp only [hv, Rel] at ihe
         simp only [ihe]; rfl
@@ -647,11 +788,132 @@ theorem eval_sliced (hsub : SubStore es es') (hctx : CtxWF req) :
         cases hsv : v.asEntity with
         | error x => rfl
         | ok s => exact ⟨_, rfl, by simp [Trim], scalar_bool _⟩
-  | .slot _, _, hf, _, _, _ => by simp [InFrag] at hf
-  | .unknown _, _, hf, _, _, _ => by simp [InFrag] at hf
-  | .call _ _, _, hf, _, _, _ => by simp [InFrag] at hf
-  | .set _, _, hf, _, _, _ => by simp [InFrag] at hf
-  | .record _, _, hf, _, _, _ => by simp [InFrag] at hf
+  | @call1 fn a ta _ hna hscal iha =>
+    intro r hm hc
+    simp only [manifestOfExpr, manifestUnionList] at hm
+    cases h1 : manifestOfExpr ta with
+    | error x => simp [h1] at hm
+    | ok ra =>
+      simp only [h1, Except.ok.injEq] at hm
+      subst hm
+      simp only [Res.union, Res.default] at hc ⊢
+      obtain ⟨_, hc1⟩ := coverRoots_union es es' req _ _ hc
+      have iha := iha ra h1 hc1
+      have hsc := hscal
+      simp only [evaluate, evaluateList] at hsc ⊢
+      cases hv : evaluate req es [] a with
+      | error x =>
+        simp only [hv, Rel] at iha
+        simp only [iha]; rfl
+      | ok v =>
+        simp only [hv, Rel] at iha
+        obtain ⟨v', e1, e2, _⟩ := iha
+        have ev : v' = v := trim_nonrecord e2 (fun kvs h => hna kvs (by rw [hv, h]))
+        subst ev
+        simp only [e1]
+        simp only [hv] at hsc
+        exact rel_of_eq_scalar hsc (fun _ _ h => Or.inl h)
+  | @call2 fn a b ta tb _ _ hna hnb hscal iha ihb =>
+    intro r hm hc
+    simp only [manifestOfExpr, manifestUnionList] at hm
+    cases h1 : manifestOfExpr ta with
+    | error x => simp [h1] at hm
+    | ok ra =>
+      cases h2 : manifestOfExpr tb with
+      | error x => simp [h1, h2] at hm
+      | ok rb =>
+        simp only [h1, h2, Except.ok.injEq] at hm
+        subst hm
+        simp only [Res.union, Res.default] at hc ⊢
+        obtain ⟨hc12, hc2⟩ := coverRoots_union es es' req _ _ hc
+        obtain ⟨_, hc1⟩ := coverRoots_union es es' req _ _ hc12
+        have iha := iha ra h1 hc1
+        have ihb := ihb rb h2 hc2
+        have hsc := hscal
+        simp only [evaluate, evaluateList] at hsc ⊢
+        cases hv : evaluate req es [] a with
+        | error x =>
+          simp only [hv, Rel] at iha
+          simp only [iha]; rfl
+        | ok v =>
+          simp only [hv, Rel] at iha
+          obtain ⟨v', e1, e2, _⟩ := iha
+          have ev : v' = v := trim_nonrecord e2 (fun kvs h => hna kvs (by rw [hv, h]))
+          subst ev
+          simp only [e1]
+          cases hw : evaluate req es [] b with
+          | error x =>
+            simp only [hw, Rel] at ihb
+            simp only [ihb]; rfl
+          | ok w =>
+            simp only [hw, Rel] at ihb
+            obtain ⟨w', f1, f2, _⟩ := ihb
+            have ew : w' = w := trim_nonrecord f2 (fun kvs h => hnb kvs (by rw [hw, h]))
+            subst ew
+            simp only [f1]
+            simp only [hv, hw] at hsc
+            exact rel_of_eq_scalar hsc (fun _ _ h => Or.inl (Or.inl h))
+
+/-- a typed AST in the fragment whose binary operands are never records is a typed AST of its own erasure -/
+theorem sim_of_safe : ∀ (e : TExpr), InFrag e → SafeOps req es e → Sim req es e.erase e
+  | .lit p, _, _ => by simp only [TExpr.erase]; exact .lit p
+  | .var x, _, _ => by simp only [TExpr.erase]; exact .var x
+  | .ite c t e, hf, hs => by
+    simp only [InFrag] at hf
+    simp only [SafeOps] at hs
+    simp only [TExpr.erase]
+    exact .ite (sim_of_safe c hf.1 hs.1) (fun _ => sim_of_safe t hf.2.1 hs.2.1) (fun _ => sim_of_safe e hf.2.2 hs.2.2)
+  | .and a b, hf, hs => by
+    simp only [InFrag] at hf
+    simp only [SafeOps] at hs
+    simp only [TExpr.erase]
+    exact .and (sim_of_safe a hf.1 hs.1) (fun _ => sim_of_safe b hf.2 hs.2)
+  | .or a b, hf, hs => by
+    simp only [InFrag] at hf
+    simp only [SafeOps] at hs
+    simp only [TExpr.erase]
+    exact .or (sim_of_safe a hf.1 hs.1) (fun _ => sim_of_safe b hf.2 hs.2)
+  | .unaryApp op ty a, hf, hs => by
+    simp only [InFrag] at hf
+    simp only [SafeOps] at hs
+    simp only [TExpr.erase]
+    exact .unary op ty (sim_of_safe a hf hs)
+  | .binaryApp op ty1 ty2 a b, hf, hs => by
+    simp only [InFrag] at hf
+    simp only [SafeOps] at hs
+    simp only [TExpr.erase]
+    exact .binary op ty1 ty2 hf.1 (sim_of_safe a hf.2.1 hs.2.2.1) (sim_of_safe b hf.2.2 hs.2.2.2) hs.1 hs.2.1
+  | .getAttr e a, hf, hs => by
+    simp only [InFrag] at hf
+    simp only [SafeOps] at hs
+    simp only [TExpr.erase]
+    exact .getAttr a (sim_of_safe e hf hs)
+  | .hasAttr e a, hf, hs => by
+    simp only [InFrag] at hf
+    simp only [SafeOps] at hs
+    simp only [TExpr.erase]
+    exact .hasAttr a (sim_of_safe e hf hs)
+  | .like e p, hf, hs => by
+    simp only [InFrag] at hf
+    simp only [SafeOps] at hs
+    simp only [TExpr.erase]
+    exact .like p (sim_of_safe e hf hs)
+  | .is e ty, hf, hs => by
+    simp only [InFrag] at hf
+    simp only [SafeOps] at hs
+    simp only [TExpr.erase]
+    exact .is ty (sim_of_safe e hf hs)
+  | .slot _, hf, _ => by simp [InFrag] at hf
+  | .unknown _, hf, _ => by simp [InFrag] at hf
+  | .call _ _, hf, _ => by simp [InFrag] at hf
+  | .set _, hf, _ => by simp [InFrag] at hf
+  | .record _, hf, _ => by simp [InFrag] at hf
+
+/-- soundness of the analysis on the core fragment (typed AST whose erasure is the evaluated expression) -/
+theorem eval_sliced (hsub : SubStore es es') (hctx : CtxWF req) (e : TExpr) (r : Res) (hf : InFrag e)
+    (hs : SafeOps req es e) (hm : manifestOfExpr e = .ok r) (hc : CoverRoots es es' req r.global) :
+    Rel es es' req r.paths (evaluate req es [] e.erase) (evaluate req es' [] e.erase) :=
+  eval_sim hsub hctx (sim_of_safe e hf hs) r hm hc
 
 end main
 
